@@ -42,3 +42,23 @@ func AlphaUnion(w *World) []Action {
 		V2Pay(AddrV2, true, 2), V2Pay(AddrV1, false, 1), V2Chain(AddrV2), MixedChain(), V2SF(true), V2Form(1, 2, 100), V2Revise("pay"), V2Renew("partial"), V2Proof(), V2Expire(), V2Attest(),
 	}
 }
+
+// ComboMenu serves "block combinatorics" models (K = 3): while the ledger holds no contract it offers ONE setup block
+// (a v1 and a v2 contract formed, where the era allows); afterwards a small set of actions that touch the same few
+// elements in different ways, so that every ordered triple of them inside one block is explored: several MidState code
+// paths for one element (revise, revise again, resolve, renew), ephemeral chains within and across transaction
+// versions, siafund claims around contract formations.
+func ComboMenu(w *World) []Action {
+	if len(w.Ref.Live(KFC))+len(w.Ref.Live(KV2FC)) == 0 {
+		return []Action{
+			Seq("setup(v1+v2 contracts)", V1Form(1, 2, 100), V2Form(1, 2, 100)),
+			Seq("setup(v1 contract)", V1Form(1, 2, 100)),
+			Seq("setup(v2 contract)", V2Form(1, 2, 100)),
+		}
+	}
+	return []Action{
+		V1Pay(true, 2), V1Revise("pay"), V1Revise("grow"), V1Proof(false),
+		MixedChain(), V2Chain(AddrV2), V2SF(true),
+		V2Revise("pay"), V2Revise("keys"), V2Renew("partial"),
+	}
+}
